@@ -41,6 +41,12 @@ def run(desc):
     ov["config"] = _config
     desc["overrides"] = ov
     case, snaps = _sim.build(desc)
+    if desc["idx"] % 3 == 1:
+        # a transaction object taken at the first update and used / executed in later ones (the bet delay in force is the one at
+        # the time the requests are sent), several requests per explicit transaction
+        from .. import simgen as _sg
+
+        _sg.usage_variants(case, snaps, _sg.mk_rng(desc["seed"], desc["idx"], 707), p_hold=0.7, p_batch=0.4)
     if case.get("event_processing") and len(snaps) > 1:
         # some requests on one market are made while an update of a sibling market of the event is being processed
         from .. import simgen
